@@ -106,6 +106,9 @@ PLAIN_TAGS = [
     ("tp", "A", st.sampled_from(["P", "S"])),
     ("zz", "Z", st.text(alphabet="abcXYZ019", min_size=1, max_size=6)),
     ("cm", "i", st.integers(0, 500).map(str)),
+    # difference strings and MD: direction-dependent like the CIGAR, but ordinary optional fields (never rewritten)
+    ("cs", "Z", st.sampled_from([":6*at:5-c:3+gg", ":7", "=ACGT*ag=TT-a", ":2+t:9"])),
+    ("MD", "Z", st.sampled_from(["10A5^AC6", "7", "3T0G2"])),
 ]
 
 
